@@ -64,20 +64,24 @@ Definition has_dup_map_key (files : list (string * string)) : bool :=
 
 (* "TLSRoutes claiming one hostname ... the winner is the oldest ... and the losers are told so in status". Stated on the observed
    conditions for the plain case: a TLSRoute with one hostname and one parentRef naming a listener, while an older TLSRoute (age, then
-   name) carries that hostname and is attached to that listener (names it or names no section): its entry must not be Accepted=True. *)
+   name) carries that hostname and is reported Accepted on that listener (names it): its entry must not be Accepted=True. *)
 Definition tls_older (a b : string * string * Z * list string * list string) : bool :=
   let '(_, n1, t1, _, _) := a in let '(_, n2, t2, _, _) := b in older t1 "" n1 t2 "" n2.
+Definition tls_accepted_on (conds : list string) (ns n s : string) : bool :=
+  existsb (fun x => has_prefix ("TLSRoute/" ++ ns ++ "/" ++ n ++ "|")%string x && has_suffix "|Accepted=True:Accepted" x &&
+                    existsb (fun part => has_prefix ("parent ")%string part && has_suffix ("/" ++ s ++ " by " ++ our_controller)%string part)
+                            (split_on "|"%char x)) conds.
+(* the older Route must itself be reported Accepted through a parentRef that names the listener: a Route the controller did not
+   build (repeated parentRefs, say) holds no hostname *)
 Definition unwarned_tls_losers (c : case) (conds : list string) : list string :=
   flat_map (fun r2 =>
     let '(ns2, n2, _, hs2, ss2) := r2 in
     match hs2, ss2 with
     | [h], [s] =>
         if negb (seqb s "") &&
-           existsb (fun r1 => let '(_, _, _, hs1, ss1) := r1 in
-                              tls_older r1 r2 && mem_str h hs1 && (mem_str "" ss1 || mem_str s ss1)) (k_tls c) &&
-           existsb (fun x => has_prefix ("TLSRoute/" ++ ns2 ++ "/" ++ n2 ++ "|")%string x && has_suffix "|Accepted=True:Accepted" x &&
-                             existsb (fun part => has_prefix ("parent ")%string part && has_suffix ("/" ++ s ++ " by " ++ our_controller)%string part)
-                                     (split_on "|"%char x)) conds
+           existsb (fun r1 => let '(ns1, n1, _, hs1, ss1) := r1 in
+                              tls_older r1 r2 && mem_str h hs1 && mem_str s ss1 && tls_accepted_on conds ns1 n1 s) (k_tls c) &&
+           tls_accepted_on conds ns2 n2 s
         then [n2] else []
     | _, _ => []
     end) (k_tls c).
